@@ -449,6 +449,14 @@ def dec_outcome(v, distinct=False):
 
 
 def do_predict(model, kind, teams):
+    if isinstance(teams, list) and len(teams) % 2 == 1:
+        # every other query names its argument (the spelling of the repository's own tests)
+        if kind == "win":
+            return model.predict_win(teams=teams)
+        if kind == "draw":
+            return model.predict_draw(teams=teams)
+        if kind == "rank":
+            return [list(x) for x in model.predict_rank(teams=teams)]
     if kind == "win":
         return model.predict_win(teams)
     if kind == "draw":
